@@ -440,7 +440,7 @@ def check_static_offset_rule(run, rule, mod):
                     seen.add(b)
                     return any(reach(s, tgt, seen) for s in f.succ(b))
                 ok = ne_edge is not None and reach(ne_edge, hb) and not reach(other, hb)
-        run.instance(rule, "check_static_offset: mismatch (and only mismatch) reaches the error handler: %s" % re.sub(r"so_\w+_\d+::key", "K", f.dname)[:120], f.where(), ok=ok)
+        run.instance(rule, "check_static_offset: mismatch (and only mismatch) reaches the error handler: %s" % re.sub(r"so_\w+_\d+::key", "K", f.dname), f.where(), ok=ok)
         if not ok:
             run.violation(rule, "method::check_static_offset|branch", "check_static_offset does not route exactly the actual != expected outcome to the error handler", f.where())
     return n
